@@ -58,16 +58,19 @@ class P(vlib.Prop):
             "operations + drain. thorough: 15x/10x. Direct oracle on the implementation: FIFO/exactly-once hand-off, "
             "refusal rule from the reported size, size bounds, exact size (in-memory), zero when all finished, no "
             "producer blocked on an empty queue, cancelled producer returns ctx error, wait-for-result own outcome. "
-            "non-trivial = at least one hand-off or one blocked/awaiting producer.")
+            "non-trivial = at least one hand-off or one blocked/awaiting producer. Round 3: every in-memory enqueue is "
+            "bracketed by LPick/LObj labels carrying the identity of the blockingDone that sync.Pool handed out "
+            "(pool reuse and abandonment are checked against the model's pool), and 80 cases call "
+            "hasMoreSpace.Broadcast() directly with 0-3 counted waiters (label LBroadcast, cond API only).")
     trusted_base = [
         "Coq 8.16.1 kernel + vm_compute (coqc); no axioms (Print Assumptions: closed under the global context)",
         "hand-written LTS coq/C02/Model.v after memory_queue.go, persistent_queue.go (volatile half), cond.go, async_queue.go's consumer loop; tied by the correspondence run",
-        "assumed semantics of sync.Mutex (mutual exclusion, no fairness), 1-slot buffered channel, select, context cancellation, sync.Cond for consumers, sync.Pool handing out unshared objects",
+        "assumed semantics of sync.Mutex (mutual exclusion, no fairness), 1-slot buffered channel, select, context cancellation, sync.Cond for consumers, sync.Pool (Get returns any pooled object or a new one; Put makes the object available)",
         "Go harness harness/C02/queue_test.go + go test -overlay; Go toolchain; error-free mock storage (storagetest)",
     ]
     assumptions = [
         "everything between Lock and Unlock of the queue mutex is one atomic step; data guarded by the mutex is only touched inside it",
         "storage operations of the persistent queue succeed (crashes and storage errors are C01's subject); the queue starts on an empty store",
         "0 <= capacity; sizes offered to a persistent queue are non-negative (Sizer contract); int64 does not overflow",
-        "liveness is stated as: quiescent states have no producer inside Offer (no fairness-based eventuality is proved)",
+        "liveness: every internal step decreases a natural-number measure, so runs of the queue's own threads are finite and end quiescent; admission of a parked producer is proved for runs in which no new Offer/cancel/Shutdown arrives from some point on",
     ]
